@@ -13,6 +13,9 @@ type (
 		objectsHead *signalListTuple
 		objectsTail *signalListTuple
 		id          int // debugging only
+
+		// the object names this client waits on (needed to register again, and to pass a wake-up on)
+		names []string
 	}
 
 	// signalListTuple connects a waiting client to a queue the client's signal is in; the
@@ -132,6 +135,7 @@ func (ref *signalListTuple) unlink() (listEmpty bool) {
 // can wait on ws.ready channel
 func (wt *waitTable) enterWait(name string) (ws *wakeSignal) {
 	ws = newWakeSignal()
+	ws.names = []string{name}
 
 	list, exists := wt.table[name]
 	if !exists {
@@ -149,6 +153,7 @@ func (wt *waitTable) enterWait(name string) (ws *wakeSignal) {
 // wait on ws.ready channel
 func (wt *waitTable) enterMultiWait(names []string) (ws *wakeSignal) {
 	ws = newWakeSignal()
+	ws.names = names
 
 	// get in each object's list
 	for _, name := range names {
@@ -178,10 +183,46 @@ func (wt *waitTable) unlinkWakeSignal(ws *wakeSignal) {
 	}
 }
 
+// Puts a client wake signal back into the wait lists of its objects (at the end
+// of each queue). A wake-up takes the signal out of all its lists; a client that
+// was woken but found the element already taken by someone else must register
+// again, or no later push would wake it.
+func (wt *waitTable) reenterWait(ws *wakeSignal) {
+	if ws.objectsHead != nil {
+		return // still registered
+	}
+	for _, name := range ws.names {
+		list, exists := wt.table[name]
+		if !exists {
+			list = &objectWaitList{
+				name: name,
+			}
+			wt.table[name] = list
+		}
+		ws.joinWaitList(list)
+	}
+}
+
 // Cleans up a client wake signal.
 func (wt *waitTable) disposeWakeSignal(ws *wakeSignal) {
 	wt.unlinkWakeSignal(ws)
+
+	// A wake-up that this client received but did not act on (it is leaving because of a
+	// timeout or an unblock request that fired at the same moment) belongs to the next
+	// waiter: the pushed element is still in the list.
+	unusedWakeup := false
+	select {
+	case <-ws.ready:
+		unusedWakeup = true
+	default:
+	}
 	close(ws.ready)
+
+	if unusedWakeup {
+		for _, name := range ws.names {
+			wt.unblock(name, 1)
+		}
+	}
 }
 
 // removes the head of the list for the named object (if any),
